@@ -12,6 +12,10 @@ package main
 //   [i2] <any wallet-level led op>     wallet | addr | notify | recvtx | queries | restart
 //        queries (bal utxos abal addrs shist bhist sbu hsbu shistp bhistp) first select the wallet
 //        through UseWallet, so an importing / removing / unknown wallet answers `err`
+//   [i2] notify B                      as in led, plus the cursor rule: after a successful notification no
+//                                      importing wallet's rescan cursor may be above the fork point between the
+//                                      follower's previous tip and B (every height above it was disconnected and
+//                                      rolled back):   ok | ok cursor-above-fork:W1,… | err
 //   [i2] use W                         UseWallet                        ok | unready | err
 //   [i2] import W mn|ks N              import W's mnemonic / exported keystore (ExternalIndex N)
 //                                      ok <status> <addresses> | err-<class>
@@ -215,6 +219,8 @@ func (x *irExec) op(in *irInst, a []string) string {
 			return "err"
 		}
 		return ledOp(e, a)
+	case a[0] == "notify" && len(a) == 2:
+		return notifyChecked(e, a)
 	case a[0] == "use" && len(a) == 2:
 		return useStrict(e, a[1])
 	case a[0] == "restart" && len(a) == 1:
@@ -567,4 +573,57 @@ func stalePend(e *WEnv, chain []string) string {
 		}
 	}
 	return joinSorted(items)
+}
+
+// notifyChecked delivers the notification and then checks the rescan-cursor rule of C07 against
+// the block tree (MW.Props.C07.pullBack_spec is the model-side theorem): the fork point of the
+// follower's previous tip and the notified block bounds every cursor of a wallet that is still
+// importing. On code where the rule holds the output is exactly ledOp's.
+func notifyChecked(e *WEnv, a []string) string {
+	bi, ok := e.blocks[a[1]]
+	if !ok {
+		return ledOp(e, a)
+	}
+	_, oldHash := e.wm.VerifBestBlock()
+	res := ledOp(e, a)
+	if res != "ok" {
+		return res
+	}
+	ob, ok := e.blkByHash[oldHash]
+	if !ok {
+		return res
+	}
+	x, y := ob, bi
+	for x != nil && y != nil && x.height > y.height {
+		x = e.blocks[x.prev]
+	}
+	for x != nil && y != nil && y.height > x.height {
+		y = e.blocks[y.prev]
+	}
+	for x != nil && y != nil && x.name != y.name {
+		x, y = e.blocks[x.prev], e.blocks[y.prev]
+	}
+	if x == nil || y == nil {
+		return res
+	}
+	fork := x.height
+	ws, err := e.wm.Wallets()
+	if err != nil {
+		return res
+	}
+	var bad []string
+	for _, w := range ws {
+		if !w.Status.Ready() && w.Status.SyncedHeight > fork {
+			n := e.walletRev[w.WalletID]
+			if n == "" {
+				n = "?"
+			}
+			bad = append(bad, n)
+		}
+	}
+	if len(bad) == 0 {
+		return res
+	}
+	sort.Strings(bad)
+	return res + " cursor-above-fork:" + strings.Join(bad, ",")
 }
